@@ -27,6 +27,7 @@ type PropConfig struct {
 	Explain   string
 	Thorough  func(name string) bool // harnesses only run in thorough tier (nil: all in both)
 	QuickSkip func(name string) bool
+	Redirect  map[string]string // real function (ssa name) -> harness function modelling it
 	TimeoutMs int
 }
 
@@ -89,6 +90,20 @@ func runHarness(l *Loaded, pc *PropConfig, fn *ssa.Function, solver *Solver, tie
 	q0, s0 := solver.Queries, solver.Time
 	ex := NewExec(l.Prog, solver)
 	ex.harness = fn.Name()
+	if len(pc.Redirect) > 0 {
+		ex.redirect = map[string]*ssa.Function{}
+		for real, model := range pc.Redirect {
+			if m := fn.Pkg.Func(model); m != nil {
+				ex.redirect[real] = m
+			} else {
+				for _, p := range l.Pkgs {
+					if m := p.Func(model); m != nil {
+						ex.redirect[real] = m
+					}
+				}
+			}
+		}
+	}
 	if pc.Unwind > 0 {
 		ex.unwind = pc.Unwind
 	}
